@@ -119,7 +119,7 @@ def step (d : DS) (line : String) : DS × String :=
   | ["new", j, p, f, t, cert] =>
     match Hex.toOptBytes j, Hex.toOptBytes p, f.toNat? with
     | some j, some p, some f =>
-      let c0 : Conn := { jid := j, pass := p, cert := cert = "1" }
+      let c0 : Conn := { jid := j, pass := p, cert := cert ≠ "0" }
       let (c1, rc) := setFlags c0 f
       finish { d with exists_ := true, released := false, ctypeTok := t } c1 s!"rc {rc}"
     | _, _, _ => (d, "= bad-op")
